@@ -575,23 +575,21 @@ func (o *FilterOptimizer) unionPrefix(l, r *ScanType) *ScanType {
 }
 
 func inRange(start, end, val []byte, isEnd bool) bool {
-	if start == nil && end != nil {
-		if val == nil && !isEnd {
-			return true
-		} else if val == nil && isEnd {
-			return false
+	// nil means unbounded: a nil val is -inf as a start and +inf as an end,
+	// so it is in range only if the range is unbounded on that side too
+	if val == nil {
+		if isEnd {
+			return end == nil
 		}
-		return bytes.Compare(end, val) >= 0
+		return start == nil
 	}
-	if start != nil && end == nil {
-		if val == nil && !isEnd {
-			return false
-		} else if val == nil && isEnd {
-			return true
-		}
-		return bytes.Compare(start, val) <= 0
+	if start != nil && bytes.Compare(start, val) > 0 {
+		return false
 	}
-	return bytes.Compare(start, val) <= 0 && bytes.Compare(end, val) >= 0
+	if end != nil && bytes.Compare(end, val) < 0 {
+		return false
+	}
+	return true
 }
 
 func (o *FilterOptimizer) intersectionRange(l, r *ScanType) *ScanType {
@@ -756,7 +754,7 @@ func (o *FilterOptimizer) intersectionPrefixAndRange(prefix, srange *ScanType) *
 
 	if inRange(rstart, rend, pstart, false) {
 		// | RS | PS | RE | ...
-		if bytes.HasPrefix(rend, pstart) {
+		if rend != nil && bytes.HasPrefix(rend, pstart) {
 			// | RS | PS | RE | PE |
 			if bytes.Equal(pstart, rend) {
 				return &ScanType{MGET, [][]byte{pstart}}
